@@ -315,3 +315,8 @@ MUTANTS += [
     dict(prop="C01", name="refactor: sequence parent read into a local", file="io/aoef/sequence.py", expect="clean",
          old="        if obj.parent:\n            parent = self.to_aoef(obj.parent).uuid", new="        parent_sequence = obj.parent\n        if parent_sequence:\n            parent = self.to_aoef(parent_sequence).uuid"),
 ]
+MUTANTS += [
+    dict(prop="C15", name="load_audio seeks to frames - 1 when the offset is past the end", file="audio/io.py", old="        fp.seek(min(offset, fp.frames))", new="        fp.seek(min(offset, fp.frames - 1))"),
+    dict(prop="C15", name="load_audio seeks past the end of the file (original defect)", file="audio/io.py", old="        fp.seek(min(offset, fp.frames))", new="        fp.seek(offset)"),
+    dict(prop="C15", name="load_audio reads without zero fill", file="audio/io.py", old="        data = fp.read(frames=samples, always_2d=True, fill_value=0)", new="        data = fp.read(frames=samples, always_2d=True)"),
+]
